@@ -273,7 +273,17 @@ QUERIES = {
     "q_mono": lambda r: [ax.is_monotonic() for ax in r.axes if not isinstance(ax, MultiAxis)], "q_labels": lambda r: r.labels, "q_slice": lambda r: r[py(r.axes[0].values[0]):],
     "q_add": lambda r: r + partner(r.dims[0], _first(r)[1]), "q_align": lambda r: da.align([r, partner(r.dims[0], _first(r)[1])]), "q_repr": lambda r: repr(r),
     "q_size": lambda r: [ax.size for ax in r.axes],
+    # library calls that raise half-way (the exception is swallowed by the harness, as by a user's try / except)
+    "q_ds_op_fails": lambda r: _ds_with_strings(r) - _ds_with_strings(r), "q_ix_fails": lambda r: r.ix[99],
+    "q_take_fails": lambda r: r.take({"nodim_": 1}),
 }
+
+
+def _ds_with_strings(r):
+    ds = Dataset()
+    ds["v"] = r
+    ds["s"] = DimArray(np.array(["u"] * r.shape[0], dtype=object), axes=[r.axes[0].copy()])
+    return ds
 
 
 def _fresh_label(ax):
@@ -560,6 +570,14 @@ class Space(object):
             labs = [py(ax.values) for ax in d0.axes]
             if labs != [list(range(n)) for n in d0.shape] or list(d0.dims) != ["x%d" % i for i in range(d0.ndim)]:
                 return bad("after {}: {} built dims {} with labels {} instead of the default x0.. / 0..n-1".format(hist[1:], nm, d0.dims, labs))
+        # ... and two freshly built arrays with overlapping labels still add up label-wise (an earlier call - also one that failed half-way -
+        # must not have left the library in another mode of operation)
+        p1 = DimArray(np.array([1., 2., 3.]), axes=[Axis(np.array([10, 20, 50]), "k_")])
+        p2 = DimArray(np.array([10., 20., 30.]), axes=[Axis(np.array([20, 50, 60]), "k_")])
+        sm = call(lambda: p1 + p2)
+        if isinstance(sm, Raised) or py(sm.axes[0].values) != [10, 20, 50, 60] or not common.same_values(sm.values, np.array([np.nan, 12., 23., np.nan])):
+            return bad("after {}: two freshly built arrays labelled [10, 20, 50] and [20, 50, 60] add up to {} instead of labels [10, 20, 50, 60] "
+                       "values [nan, 12, 23, nan]".format(hist[1:], common.describe(sm)))
         canon = common.digest((tuple(common.snap(r) if isinstance(r, DimArray) else None for r in regs), hidden(regs)))
         return ok(hist[-1][0], changed, canon=canon)
 
